@@ -1,1 +1,617 @@
-/- property theorems for C13 (filled in below) -/
+/-
+C13 — constructed isometries, tangent vectors and regular polygons hit their targets.
+Only property theorems and non-vacuity examples live here; helper lemmas are in
+`GT.Lemmas.Targets`.  Model: `GT.Model.Targets` (and `GT.Model.Charts`).
+
+Conventions of the code: isometries act on row vectors (`x ↦ x·M`), so the image of the
+model origin `e₀` is row 0 of the matrix and the image of the base tangent direction `e₁` is
+row 1.  The rows of `find_isometry`'s result beyond those modelled here are a contract
+(C02/C18: `M J Mᵀ = J`); nothing below depends on them.
+-/
+import GT.Lemmas.Targets
+import GT.Properties.C01
+import Mathlib.Analysis.SpecialFunctions.Trigonometric.Inverse
+import Mathlib.Analysis.SpecialFunctions.Arsinh
+import Mathlib.Tactic.NormNum
+import Mathlib.Tactic.FinCases
+
+open Finset BigOperators
+
+set_option linter.unusedSectionVars false
+
+namespace GT.C13
+open GT GT.Targets Matrix
+
+section generic
+variable {K : Type*} [Field K] [LinearOrder K] [IsStrictOrderedRing K] {n : ℕ} {r : K → K}
+
+/-! ## `Point.origin_to`: the origin goes to the point -/
+
+/-- row 0 of `p.origin_to()` is the hyperboloid representative of `p` (a positive multiple of
+the stored vector) -/
+theorem originTo_row0 (hr : IsSqrt r) (x : Fin (n + 1) → K) (hx : mink x x < 0) :
+    originToRow0 r x = fun i => x i / r (-mink x x) := by
+  unfold originToRow0 gsRow0
+  rw [normalize_unit hr _ (by rw [mink_normalize_timelike hr x hx]; simp),
+    normalize_timelike hr x hx]
+
+/-- `p.origin_to() @ Point.get_origin(n)` is `p`: for every matrix whose first row is the one
+`find_isometry` produces, `e₀·M` is a positive multiple of the stored vector of `p`, so it has
+the same Klein coordinates -/
+theorem originTo_maps_origin (hr : IsSqrt r) (x : Fin (n + 1) → K) (hx : mink x x < 0)
+    (M : Matrix (Fin (n + 1)) (Fin (n + 1)) K) (hM : M 0 = originToRow0 r x) :
+    (Pi.single 0 1 ᵥ* M = fun i => x i / r (-mink x x)) ∧ 0 < 1 / r (-mink x x) ∧
+      klein (Pi.single 0 1 ᵥ* M) = klein x := by
+  have hpos := hr.pos (neg_pos.2 hx)
+  have h1 : Pi.single 0 1 ᵥ* M = fun i => x i / r (-mink x x) := by
+    rw [single_one_vecMul]; show M 0 = _; rw [hM, originTo_row0 hr x hx]
+  refine ⟨h1, by positivity, ?_⟩
+  have hx0 : x 0 ≠ 0 := by
+    intro h0
+    have : mink x x = nsq (Fin.tail x) := by unfold mink nsq; rw [h0]; ring
+    linarith [nsq_nonneg (Fin.tail x)]
+  rw [h1]; funext i; unfold klein; field_simp
+
+/-! ## `TangentVector.origin_to`: the base tangent goes to a positive multiple -/
+
+/-- rows 0 and 1 of `tv.origin_to()`: the normalised base point and the `.vector` of the
+tangent vector divided by its (positive) length -/
+theorem tvOriginTo_rows (hr : IsSqrt r) (p v : Fin (n + 1) → K) (hp : mink p p < 0)
+    (hv : 0 < mink (projHyp p v) (projHyp p v)) :
+    tvOriginToRow0 r p v = (fun i => p i / r (-mink p p)) ∧
+    tvOriginToRow1 r p v
+      = fun i => projHyp p v i / r (mink (projHyp p v) (projHyp p v)) := by
+  have hpos := hr.pos (neg_pos.2 hp)
+  constructor
+  · exact originTo_row0 hr p hp
+  · unfold tvOriginToRow1 gsRow1
+    have horth : mink (normalize r (projHyp p v)) (normalize r p) = 0 := by
+      rw [normalize_spacelike hr _ hv, normalize_timelike hr p hp, mink_div_left,
+        mink_div_right, mink_projHyp_base p v hp.ne]; simp
+    have e : (fun i => normalize r (projHyp p v) i
+        - mproj (normalize r (projHyp p v)) (normalize r p) i) = normalize r (projHyp p v) := by
+      funext i; simp [mproj, horth]
+    rw [e, normalize_unit hr _ (by rw [mink_normalize_spacelike hr _ hv]; simp),
+      normalize_spacelike hr _ hv]
+
+/-- `tv.origin_to()` sends the base tangent vector (origin, direction `e₁`) to the base point
+of `tv` and to a **positive** multiple of its direction -/
+theorem tvOriginTo_maps_base (hr : IsSqrt r) (p v : Fin (n + 2) → K) (hp : mink p p < 0)
+    (hv : 0 < mink (projHyp p v) (projHyp p v))
+    (M : Matrix (Fin (n + 2)) (Fin (n + 2)) K)
+    (h0 : M 0 = tvOriginToRow0 r p v) (h1 : M 1 = tvOriginToRow1 r p v) :
+    klein (Pi.single 0 1 ᵥ* M) = klein p ∧
+    (Pi.single 1 1 ᵥ* M
+      = fun i => (1 / r (mink (projHyp p v) (projHyp p v))) * projHyp p v i) ∧
+    0 < 1 / r (mink (projHyp p v) (projHyp p v)) := by
+  obtain ⟨e0, e1⟩ := tvOriginTo_rows hr p v hp hv
+  have hpos := hr.pos hv
+  refine ⟨?_, ?_, by positivity⟩
+  · exact (originTo_maps_origin hr p hp M (by rw [h0]; rfl)).2.2
+  · rw [single_one_vecMul]; show M 1 = _; rw [h1, e1]; funext i; field_simp
+
+/-- `tv.isometry_to(tv2) = tv2.origin_to() @ tv.origin_to().inv()` (row convention: the
+matrix `M₁⁻¹·M₂`) carries every row of `M₁` to the corresponding row of `M₂`; with the two
+theorems above: base point to base point, direction to a positive multiple of the direction.
+`M₁inv` is the result of `Isometry.inv()` (contract: `M₁·M₁inv = 1`). -/
+theorem isometryTo_spec (M₁ M₁inv M₂ : Matrix (Fin (n + 1)) (Fin (n + 1)) K)
+    (hinv : M₁ * M₁inv = 1) (i : Fin (n + 1)) :
+    M₁ i ᵥ* (M₁inv * M₂) = M₂ i := by
+  have : M₁ i = Pi.single i 1 ᵥ* M₁ := by rw [single_one_vecMul]; rfl
+  rw [this, vecMul_vecMul, ← Matrix.mul_assoc, hinv, Matrix.one_mul, single_one_vecMul]; rfl
+
+/-! ## `point_along` -/
+
+/-- `hyp_to_affine_dist`: with `u = e^t`, `(u²-1)/(1+u²) = sinh t / cosh t` -/
+theorem hypToAffine_eq (u : K) (hu : 0 < u) :
+    hypToAffine (u ^ 2) = ((u - 1 / u) / 2) / ((u + 1 / u) / 2) := by
+  unfold hypToAffine
+  have : 1 + u ^ 2 ≠ 0 := by positivity
+  field_simp
+  ring
+
+/-- the point computed by `point_along` is, projectively, `cosh t · p̂ + sinh t · v̂` — the
+point of the geodesic through `p̂` with unit tangent `v̂` at parameter `t` -/
+theorem pointAlong_eq (ph vh : Fin (n + 1) → K) (ch sh : K) (hc : ch ≠ 0) :
+    pointAlong ph vh (sh / ch) = fun i => (ch * ph i + sh * vh i) / ch := by
+  funext i; unfold pointAlong; field_simp
+
+/-- … and it lies at `cosh`-distance `ch = cosh t` from the base point, for either sign of
+`sh = sinh t` -/
+theorem pointAlong_dist (hr : IsSqrt r) (ph vh : Fin (n + 1) → K) (ch sh : K)
+    (hp : mink ph ph = -1) (hv : mink vh vh = 1) (hpv : mink ph vh = 0)
+    (hc : 0 < ch) (hcs : ch ^ 2 - sh ^ 2 = 1) :
+    coshDist r ph (pointAlong ph vh (sh / ch)) = ch := by
+  have e : pointAlong ph vh (sh / ch) = fun i => 1 * ph i + (sh / ch) * vh i := by
+    funext i; simp [pointAlong]
+  have hyy : mink (pointAlong ph vh (sh / ch)) (pointAlong ph vh (sh / ch)) = -(1 / ch) ^ 2 := by
+    rw [e, mink_lin_left, mink_lin_right, mink_lin_right, hp, hv, hpv, mink_comm vh ph, hpv]
+    field_simp; linear_combination -hcs
+  have hpy : mink ph (pointAlong ph vh (sh / ch)) = -1 := by
+    rw [e, mink_lin_right, hp, hpv]; ring
+  have hy : mink (pointAlong ph vh (sh / ch)) (pointAlong ph vh (sh / ch)) < 0 := by
+    rw [hyy]; have : 0 < (1 / ch) ^ 2 := by positivity
+    linarith
+  rw [coshDist_timelike hr _ _ (by rw [hp]; norm_num) hy, hpy, hp, hyy, neg_neg, neg_neg,
+    isSqrt_one hr, hr.sq (by positivity : (0 : K) ≤ 1 / ch)]
+  simp
+
+/-! ## `unit_tangent_towards` followed by `point_along d(p,q)` arrives at `q` -/
+
+/-- same-sheet core: for `⟨p,q⟩ < 0` the unit tangent at `p` built from `q - p`, followed for
+`cosh`-distance `ch = coshDist p q` (`sh = √(ch²-1) > 0`), reaches `q/(ch·√-⟨q,q⟩)` -/
+theorem towards_core (hr : IsSqrt r) (p q : Fin (n + 1) → K) (hp : mink p p < 0)
+    (hq : mink q q < 0) (hpq : mink p q < 0) (sh : K) (hsh : 0 < sh)
+    (hcs : coshDist r p q ^ 2 - sh ^ 2 = 1) :
+    let u := tvNormalizedVec r p (fun i => q i - p i)
+    pointAlong (tvOriginToRow0 r p u) (tvOriginToRow1 r p u) (sh / coshDist r p q)
+      = fun i => q i / (coshDist r p q * r (-mink q q)) := by
+  intro u
+  have ha := hr.pos (neg_pos.2 hp)
+  have hb := hr.pos (neg_pos.2 hq)
+  have ha2 := (hr _ (neg_pos.2 hp).le).2
+  have hb2 := (hr _ (neg_pos.2 hq).le).2
+  set a := r (-mink p p) with ha_def
+  set b := r (-mink q q) with hb_def
+  have hch : coshDist r p q = -mink p q / (a * b) := by
+    rw [coshDist_timelike hr p q hp hq, abs_of_neg hpq]
+  set ch := coshDist r p q with hch_def
+  have hchpos : 0 < ch := by rw [hch]; apply div_pos <;> [linarith; positivity]
+  -- w = projHyp p (q - p) = q - (ch b / a) p
+  have hw : projHyp p (fun i => q i - p i) = fun i => q i - (ch * b / a) * p i := by
+    funext i
+    simp only [projHyp, mproj, mink_sub_left]
+    rw [hch, mink_comm q p]
+    have hpp : mink p p = -(a * a) := by rw [ha2]; ring
+    rw [hpp]; field_simp; ring
+  have hww : mink (projHyp p (fun i => q i - p i)) (projHyp p (fun i => q i - p i))
+      = (b * sh) * (b * sh) := by
+    rw [hw]
+    have e : (fun i => q i - (ch * b / a) * p i) = fun i => 1 * q i + (-(ch * b / a)) * p i := by
+      funext i; ring
+    have hpp : mink p p = -(a * a) := by rw [ha2]; ring
+    have hqq : mink q q = -(b * b) := by rw [hb2]; ring
+    have hpq' : mink p q = -(ch * (a * b)) := by rw [hch]; field_simp
+    rw [e, mink_lin_left, mink_lin_right, mink_lin_right, mink_comm q p, hpp, hqq, hpq']
+    field_simp
+    linear_combination hcs
+  have hwpos : 0 < mink (projHyp p (fun i => q i - p i)) (projHyp p (fun i => q i - p i)) := by
+    rw [hww]; positivity
+  have hrw : r (mink (projHyp p (fun i => q i - p i)) (projHyp p (fun i => q i - p i)))
+      = b * sh := by rw [hww]; exact isSqrt_mul_self hr (by positivity)
+  -- the normalised tangent vector and its `.vector`
+  have hu : u = fun i => (q i - (ch * b / a) * p i) / (b * sh) := by
+    show tvNormalizedVec r p (fun i => q i - p i) = _
+    unfold tvNormalizedVec
+    rw [normalize_spacelike hr _ hwpos, hrw, projHyp_of_orth]
+    · rw [hw]
+    · rw [mink_div_left, mink_projHyp_base p _ hp.ne]; simp
+  have hup : mink u p = 0 := by
+    rw [hu, mink_div_left, ← hw, mink_projHyp_base p _ hp.ne]; simp
+  have hpu : projHyp p u = u := projHyp_of_orth p u hup
+  have huu : mink (projHyp p u) (projHyp p u) = 1 := by
+    rw [hpu, hu, mink_div_left, mink_div_right, ← hw, hww]; field_simp
+  obtain ⟨e0, e1⟩ := tvOriginTo_rows hr p u hp (by rw [huu]; exact one_pos)
+  rw [← ha_def] at e0
+  rw [e0, e1, huu, isSqrt_one hr, hpu, hu]
+  funext i
+  unfold pointAlong
+  field_simp
+  ring
+
+/-- following `p.unit_tangent_towards(q)` for distance `d(p,q)` arrives at `q`: the computed
+vector is a positive multiple of the representative of `q` on the sheet of `p`, whatever the
+sign of the stored representative (D7 repaired) -/
+theorem pointAlong_towards (hr : IsSqrt r) (p q : Fin (n + 1) → K) (hp : mink p p < 0)
+    (hq : mink q q < 0) (sh : K) (hsh : 0 < sh) (hcs : coshDist r p q ^ 2 - sh ^ 2 = 1) :
+    let u := unitTangentTowards r p q
+    ∃ c : K, c ≠ 0 ∧
+      pointAlong (tvOriginToRow0 r p u) (tvOriginToRow1 r p u) (sh / coshDist r p q)
+        = fun i => c * q i := by
+  intro u
+  have hb := hr.pos (neg_pos.2 hq)
+  have hch1 := one_le_coshDist hr p q hp hq
+  have hne : mink p q ≠ 0 := by
+    intro h0
+    have := reverse_cs p q hp hq
+    rw [h0] at this
+    nlinarith [mul_pos_of_neg_of_neg hp hq]
+  by_cases hs : mink p q > 0
+  · -- opposite sheets: the code uses `-q`
+    have hq' : mink (fun i => -1 * q i) (fun i => -1 * q i) < 0 := by
+      rw [mink_mul_left, mink_mul_right]; linarith
+    have hpq' : mink p (fun i => -1 * q i) < 0 := by rw [mink_mul_right]; linarith
+    have e1 : mink p (fun i => -1 * q i) = -mink p q := by rw [mink_mul_right]; ring
+    have e2 : mink (fun i => -1 * q i) (fun i => -1 * q i) = mink q q := by
+      rw [mink_mul_left, mink_mul_right]; ring
+    have hcd : coshDist r p (fun i => -1 * q i) = coshDist r p q := by
+      rw [coshDist_timelike hr _ _ hp hq', coshDist_timelike hr _ _ hp hq, e1, e2, abs_neg]
+    have := towards_core hr p (fun i => -1 * q i) hp hq' hpq' sh hsh (by rw [hcd]; exact hcs)
+    simp only at this
+    refine ⟨-1 / (coshDist r p q * r (-mink q q)), by
+      apply div_ne_zero (by norm_num); positivity, ?_⟩
+    have hu : u = tvNormalizedVec r p (fun i => -1 * q i - p i) := by
+      show unitTangentTowards r p q = _
+      unfold unitTangentTowards; simp [hs]
+    rw [hu, ← hcd, this]
+    funext i
+    rw [e2]; field_simp
+  · have hpq : mink p q < 0 := lt_of_le_of_ne (not_lt.1 hs) hne
+    have := towards_core hr p q hp hq hpq sh hsh hcs
+    simp only at this
+    refine ⟨1 / (coshDist r p q * r (-mink q q)), by positivity, ?_⟩
+    have hu : u = tvNormalizedVec r p (fun i => q i - p i) := by
+      show unitTangentTowards r p q = _
+      unfold unitTangentTowards; simp [hs]
+    rw [hu, this]
+    funext i; field_simp
+
+/-! ## angle between tangent vectors and the hyperbolic law of cosines -/
+
+/-- `TangentVector.angle`: the argument of `arccos` is the Minkowski product of the two
+normalised tangent directions -/
+theorem angleCos_eq (hr : IsSqrt r) (p v₁ v₂ : Fin (n + 1) → K) (hp : mink p p < 0)
+    (h₁ : 0 < mink (projHyp p v₁) (projHyp p v₁)) (h₂ : 0 < mink (projHyp p v₂) (projHyp p v₂)) :
+    angleCos r p v₁ v₂ = mink (projHyp p v₁) (projHyp p v₂)
+      / (r (mink (projHyp p v₁) (projHyp p v₁)) * r (mink (projHyp p v₂) (projHyp p v₂))) := by
+  have key : ∀ v, 0 < mink (projHyp p v) (projHyp p v) →
+      projHyp p (tvNormalizedVec r p v)
+        = fun i => projHyp p v i / r (mink (projHyp p v) (projHyp p v)) := by
+    intro v hv
+    unfold tvNormalizedVec
+    rw [projHyp_idem p _ hp.ne, normalize_spacelike hr _ hv, projHyp_of_orth]
+    rw [mink_div_left, mink_projHyp_base p v hp.ne]; simp
+  unfold angleCos
+  rw [key v₁ h₁, key v₂ h₂, mink_div_left, mink_div_right]
+  have := hr.pos h₁
+  have := hr.pos h₂
+  field_simp
+
+/-- hyperbolic law of cosines: the points at distances `a`, `b` along unit tangent vectors
+`v₁`, `v₂` at `p̂` are at `cosh`-distance `cosh a cosh b − sinh a sinh b ⟨v₁,v₂⟩`, where
+`⟨v₁,v₂⟩` is the cosine reported by `TangentVector.angle` -/
+theorem law_of_cosines (hr : IsSqrt r) (ph v₁ v₂ : Fin (n + 1) → K)
+    (hp : mink ph ph = -1) (hv₁ : mink v₁ v₁ = 1) (hv₂ : mink v₂ v₂ = 1)
+    (hpv₁ : mink ph v₁ = 0) (hpv₂ : mink ph v₂ = 0)
+    (ch₁ sh₁ ch₂ sh₂ : K) (hc₁ : 0 < ch₁) (hc₂ : 0 < ch₂)
+    (hcs₁ : ch₁ ^ 2 - sh₁ ^ 2 = 1) (hcs₂ : ch₂ ^ 2 - sh₂ ^ 2 = 1) :
+    coshDist r (pointAlong ph v₁ (sh₁ / ch₁)) (pointAlong ph v₂ (sh₂ / ch₂))
+      = ch₁ * ch₂ - sh₁ * sh₂ * mink v₁ v₂ := by
+  have e : ∀ (v : Fin (n + 1) → K) (t : K), pointAlong ph v t = fun i => 1 * ph i + t * v i := by
+    intro v t; funext i; simp [pointAlong]
+  have hyy : ∀ (v : Fin (n + 1) → K) (ch sh : K), mink v v = 1 → mink ph v = 0 → 0 < ch →
+      ch ^ 2 - sh ^ 2 = 1 →
+      mink (pointAlong ph v (sh / ch)) (pointAlong ph v (sh / ch)) = -(1 / ch) ^ 2 := by
+    intro v ch sh hv hpv hc hcs
+    rw [e, mink_lin_left, mink_lin_right, mink_lin_right, hp, hv, hpv, mink_comm v ph, hpv]
+    field_simp; linear_combination -hcs
+  have h1 := hyy v₁ ch₁ sh₁ hv₁ hpv₁ hc₁ hcs₁
+  have h2 := hyy v₂ ch₂ sh₂ hv₂ hpv₂ hc₂ hcs₂
+  have hneg : ∀ ch : K, 0 < ch → -(1 / ch) ^ 2 < 0 := by
+    intro ch hc; have : 0 < (1 / ch) ^ 2 := by positivity
+    linarith
+  have h12 : mink (pointAlong ph v₁ (sh₁ / ch₁)) (pointAlong ph v₂ (sh₂ / ch₂))
+      = -(ch₁ * ch₂ - sh₁ * sh₂ * mink v₁ v₂) / (ch₁ * ch₂) := by
+    rw [e, e, mink_lin_left, mink_lin_right, mink_lin_right, hp, hpv₂, mink_comm v₁ ph, hpv₁]
+    field_simp; ring
+  -- |⟨v₁,v₂⟩| ≤ 1 on the (positive semidefinite) complement of p̂
+  have hple : mink ph ph < 0 := by rw [hp]; norm_num
+  have hA : 0 ≤ 2 + 2 * mink v₁ v₂ := by
+    have h : mink (fun i => 1 * v₁ i + 1 * v₂ i) ph = 0 := by
+      rw [mink_lin_left, mink_comm v₁ ph, mink_comm v₂ ph, hpv₁, hpv₂]; ring
+    have := nonneg_of_orth_timelike _ ph hple h
+    rw [mink_lin_left, mink_lin_right, mink_lin_right, hv₁, hv₂, mink_comm v₂ v₁] at this
+    linarith
+  have hB : 0 ≤ 2 - 2 * mink v₁ v₂ := by
+    have h : mink (fun i => 1 * v₁ i + (-1) * v₂ i) ph = 0 := by
+      rw [mink_lin_left, mink_comm v₁ ph, mink_comm v₂ ph, hpv₁, hpv₂]; ring
+    have := nonneg_of_orth_timelike _ ph hple h
+    rw [mink_lin_left, mink_lin_right, mink_lin_right, hv₁, hv₂, mink_comm v₂ v₁] at this
+    linarith
+  have hpos : 0 < ch₁ * ch₂ - sh₁ * sh₂ * mink v₁ v₂ := by
+    have hc1 : 1 ≤ ch₁ := by nlinarith [sq_nonneg sh₁]
+    have hc2 : 1 ≤ ch₂ := by nlinarith [sq_nonneg sh₂]
+    have hss : (sh₁ * sh₂) ^ 2 ≤ (ch₁ * ch₂ - 1) ^ 2 := by
+      nlinarith [sq_nonneg (ch₁ - ch₂)]
+    have habs : |sh₁ * sh₂| ≤ ch₁ * ch₂ - 1 :=
+      abs_le_of_sq_le_sq' hss (by nlinarith) |>.2 |> fun h => by
+        have := abs_le_abs (abs_le_of_sq_le_sq' hss (by nlinarith)).2
+          (by linarith [(abs_le_of_sq_le_sq' hss (by nlinarith : (0:K) ≤ ch₁ * ch₂ - 1)).1])
+        simpa [abs_of_nonneg (by nlinarith : (0:K) ≤ ch₁ * ch₂ - 1)] using this
+    have hm : |mink v₁ v₂| ≤ 1 := abs_le.2 ⟨by linarith, by linarith⟩
+    have : |sh₁ * sh₂ * mink v₁ v₂| ≤ ch₁ * ch₂ - 1 := by
+      rw [abs_mul]
+      calc |sh₁ * sh₂| * |mink v₁ v₂| ≤ |sh₁ * sh₂| * 1 :=
+            mul_le_mul_of_nonneg_left hm (abs_nonneg _)
+        _ ≤ ch₁ * ch₂ - 1 := by rw [mul_one]; exact habs
+    have := (abs_le.1 this).2
+    linarith
+  rw [coshDist_timelike hr _ _ (by rw [h1]; exact hneg ch₁ hc₁) (by rw [h2]; exact hneg ch₂ hc₂),
+    h1, h2, h12, neg_neg, neg_neg, hr.sq (by positivity : (0 : K) ≤ 1 / ch₁),
+    hr.sq (by positivity : (0 : K) ≤ 1 / ch₂)]
+  rw [abs_of_neg (by apply div_neg_of_neg_of_pos <;> [linarith; positivity])]
+  field_simp
+
+/-- the clamp added to `TangentVector.angle` is a no-op in exact arithmetic: the product of
+the two normalised tangent directions lies in `[-1, 1]` (Cauchy–Schwarz on `p^⊥`) -/
+theorem angle_clamp_noop (hr : IsSqrt r) (p v₁ v₂ : Fin (n + 1) → K) (hp : mink p p < 0)
+    (h₁ : 0 < mink (projHyp p v₁) (projHyp p v₁)) (h₂ : 0 < mink (projHyp p v₂) (projHyp p v₂)) :
+    angleCosClamped r p v₁ v₂ = angleCos r p v₁ v₂ := by
+  have hcs := cs_on_complement (projHyp p v₁) (projHyp p v₂) p hp
+    (mink_projHyp_base p v₁ hp.ne) (mink_projHyp_base p v₂ hp.ne)
+  have e := angleCos_eq hr p v₁ v₂ hp h₁ h₂
+  have r1 := hr.pos h₁
+  have r2 := hr.pos h₂
+  have s1 := (hr _ h₁.le).2
+  have s2 := (hr _ h₂.le).2
+  have hsq : angleCos r p v₁ v₂ ^ 2 ≤ 1 := by
+    rw [e, div_pow, div_le_one (by positivity)]
+    calc mink (projHyp p v₁) (projHyp p v₂) ^ 2
+        ≤ mink (projHyp p v₁) (projHyp p v₁) * mink (projHyp p v₂) (projHyp p v₂) := hcs
+      _ = (r (mink (projHyp p v₁) (projHyp p v₁)) * r (mink (projHyp p v₂) (projHyp p v₂))) ^ 2 := by
+          rw [mul_pow, pow_two, pow_two, s1, s2]
+  have hlo : -1 ≤ angleCos r p v₁ v₂ := by
+    by_contra h; rw [not_le] at h; nlinarith
+  have hhi : angleCos r p v₁ v₂ ≤ 1 := by
+    by_contra h; rw [not_le] at h; nlinarith
+  unfold angleCosClamped
+  rw [min_eq_right hhi, max_eq_right hlo]
+
+/-! ## regular polygons -/
+
+/-- `Polygon.regular_polygon`: every vertex is `(1, th·a, th·b, 0, …)` with `a² + b² = 1`
+(Klein coordinates `th·(a, b, 0, …)`, `th = tanh r`), so all vertices are at the same distance
+from the origin as the start vertex -/
+theorem polygon_equal_radii (c s th : K) (hcs : c ^ 2 + s ^ 2 = 1) (i : ℕ) :
+    mink (polyStart (n := n) 0) (polyVertex c s th i) = -1 ∧
+    mink (polyVertex (n := n) c s th i) (polyVertex c s th i) = -1 + th ^ 2 ∧
+    coshDist r (polyStart (n := n) 0) (polyVertex c s th i)
+      = coshDist r (polyStart (n := n) 0) (polyVertex c s th 0) := by
+  have hrad : ∀ i, mink (polyStart (n := n) 0) (polyVertex c s th i) = -1 := by
+    intro i
+    obtain ⟨a, b, _, hv⟩ := polyVertex_form (n := n) c s th hcs i
+    rw [hv]; unfold polyStart
+    have : (fun _ => (0 : K)) = (Fin.cons 0 (fun _ => 0) : Fin (n + 1) → K) := by
+      funext i; refine Fin.cases ?_ (fun j => ?_) i <;> simp
+    rw [this, mink_cons3, dot_zero_left]; ring
+  have hself : ∀ i, mink (polyVertex (n := n) c s th i) (polyVertex c s th i) = -1 + th ^ 2 :=
+    fun i => (gram_polyVertex c s th hcs i).1
+  refine ⟨hrad i, hself i, ?_⟩
+  unfold coshDist normalize
+  rw [hself i, hself 0]
+  by_cases h0 : r |-1 + th ^ 2| = 0
+  · simp only [h0, if_true]
+    split_ifs <;> simp [mink_div_left, hrad i, hrad 0]
+  · simp only [h0, if_false]
+    split_ifs <;> simp [mink_div_left, mink_div_right, hrad i, hrad 0]
+
+/-- consecutive vertices are at the same distance: the sides are equal -/
+theorem polygon_equal_sides (c s th : K) (hcs : c ^ 2 + s ^ 2 = 1) (i : ℕ) :
+    mink (polyVertex (n := n) c s th i) (polyVertex c s th (i + 1)) = -1 + th ^ 2 * c ∧
+    coshDist r (polyVertex (n := n) c s th i) (polyVertex c s th (i + 1))
+      = coshDist r (polyVertex (n := n) c s th 0) (polyVertex c s th 1) := by
+  have hside : ∀ i, mink (polyVertex (n := n) c s th i) (polyVertex c s th (i + 1))
+      = -1 + th ^ 2 * c := fun i => (gram_polyVertex c s th hcs i).2.1
+  have hself : ∀ i, mink (polyVertex (n := n) c s th i) (polyVertex c s th i) = -1 + th ^ 2 :=
+    fun i => (gram_polyVertex c s th hcs i).1
+  refine ⟨hside i, ?_⟩
+  unfold coshDist normalize
+  rw [hself i, hself (i + 1), hself 0, hself 1]
+  by_cases h0 : r |-1 + th ^ 2| = 0
+  · simp only [h0, if_true]; rw [hside i, hside 0]
+  · simp only [h0, if_false]
+    rw [mink_div_left, mink_div_right, mink_div_left, mink_div_right, hside i]
+    have := hside 0; simp only [Nat.zero_add] at this; rw [this]
+
+/-- the interior angle at every vertex: with `S = sinh² r` (so `th² = S/(1+S)`) and
+`g = sin²(π/n)` (so `c = cos(2π/n) = 1 - 2g`) the cosine that `TangentVector.angle` computes
+between the directions to the two neighbours is `(gS - 1 + 2g)/(1 + gS)`, independent of the
+vertex -/
+theorem polygon_vertex_angle (hr : IsSqrt r) (c s th g S : K) (hcs : c ^ 2 + s ^ 2 = 1)
+    (hc : c = 1 - 2 * g) (hS : 0 < S) (hth : th ^ 2 = S / (1 + S)) (hg0 : 0 < g) (hg1 : g < 1)
+    (i : ℕ) :
+    let x := polyVertex (n := n) c s th (i + 1)
+    angleCos r x (fun j => polyVertex c s th i j - x j) (fun j => polyVertex c s th (i + 2) j - x j)
+      = polyAngleCos g S := by
+  intro x
+  obtain ⟨g00, g01, g02⟩ := gram_polyVertex (n := n) c s th hcs i
+  obtain ⟨g11, g12, _⟩ := gram_polyVertex (n := n) c s th hcs (i + 1)
+  obtain ⟨g22, _, _⟩ := gram_polyVertex (n := n) c s th hcs (i + 2)
+  have i2 : i + 1 + 1 = i + 2 := by ring
+  rw [i2] at g12
+  have hS1 : (1 + S) ≠ 0 := by linarith
+  have hxx : mink x x = -1 / (1 + S) := by
+    show mink (polyVertex c s th (i + 1)) (polyVertex c s th (i + 1)) = _
+    rw [g11, hth]; field_simp; ring
+  have hx : mink x x < 0 := by rw [hxx]; apply div_neg_of_neg_of_pos <;> linarith
+  -- Gram data of the two difference vectors
+  set y : Fin (n + 3) → K := fun j => polyVertex c s th i j - x j with hy
+  set z : Fin (n + 3) → K := fun j => polyVertex c s th (i + 2) j - x j with hz
+  have hyx : mink y x = th ^ 2 * (c - 1) := by
+    rw [hy, mink_sub_left]
+    show mink (polyVertex c s th i) (polyVertex c s th (i + 1))
+      - mink (polyVertex c s th (i + 1)) (polyVertex c s th (i + 1)) = _
+    rw [g01, g11]; ring
+  have hzx : mink z x = th ^ 2 * (c - 1) := by
+    rw [hz, mink_sub_left]
+    show mink (polyVertex c s th (i + 2)) (polyVertex c s th (i + 1))
+      - mink (polyVertex c s th (i + 1)) (polyVertex c s th (i + 1)) = _
+    rw [mink_comm, g12, g11]; ring
+  have hyy : mink y y = 2 * th ^ 2 * (1 - c) := by
+    rw [hy, mink_sub_left, mink_sub_right, mink_sub_right]
+    show mink (polyVertex c s th i) (polyVertex c s th i)
+      - mink (polyVertex c s th i) (polyVertex c s th (i + 1))
+      - (mink (polyVertex c s th (i + 1)) (polyVertex c s th i)
+        - mink (polyVertex c s th (i + 1)) (polyVertex c s th (i + 1))) = _
+    rw [g00, g01, mink_comm (polyVertex c s th (i + 1)), g01, g11]; ring
+  have hzz : mink z z = 2 * th ^ 2 * (1 - c) := by
+    rw [hz, mink_sub_left, mink_sub_right, mink_sub_right]
+    show mink (polyVertex c s th (i + 2)) (polyVertex c s th (i + 2))
+      - mink (polyVertex c s th (i + 2)) (polyVertex c s th (i + 1))
+      - (mink (polyVertex c s th (i + 1)) (polyVertex c s th (i + 2))
+        - mink (polyVertex c s th (i + 1)) (polyVertex c s th (i + 1))) = _
+    rw [g22, mink_comm (polyVertex c s th (i + 2)), g12, g11]; ring
+  have hyz : mink y z = 2 * th ^ 2 * c * (c - 1) := by
+    rw [hy, hz, mink_sub_left, mink_sub_right, mink_sub_right]
+    show mink (polyVertex c s th i) (polyVertex c s th (i + 2))
+      - mink (polyVertex c s th i) (polyVertex c s th (i + 1))
+      - (mink (polyVertex c s th (i + 1)) (polyVertex c s th (i + 2))
+        - mink (polyVertex c s th (i + 1)) (polyVertex c s th (i + 1))) = _
+    rw [g02, g01, g12, g11]; ring
+  -- norms of the projected vectors: N = 4 g S (1 + g S) / (1 + S)
+  have hN : ∀ w : Fin (n + 3) → K, mink w x = th ^ 2 * (c - 1) → mink w w = 2 * th ^ 2 * (1 - c) →
+      mink (projHyp x w) (projHyp x w) = 4 * g * S * (1 + g * S) / (1 + S) := by
+    intro w h1 h2
+    rw [mink_projHyp x w w hx.ne, h1, h2, hxx, hth, hc]; field_simp; ring
+  have hNpos : 0 < 4 * g * S * (1 + g * S) / (1 + S) := by positivity
+  have hNy := hN y hyx hyy
+  have hNz := hN z hzx hzz
+  rw [angleCos_eq hr x y z hx (by rw [hNy]; exact hNpos) (by rw [hNz]; exact hNpos), hNy, hNz,
+    (hr _ hNpos.le).2, mink_projHyp x y z hx.ne, hyz, hyx, hzx, hxx, hth, hc]
+  unfold polyAngleCos
+  have : (1 + g * S) ≠ 0 := by positivity
+  field_simp
+  ring
+
+/-- `regular_polygon_radius` and `polygon_interior_angle` are mutually inverse at the level of
+their algebraic cores: with `A = cos²(a/2)`, `g = sin²(π/n)`, the radius formula's
+`S = sinh² r = (A - g)/((1 - A) g)` turns the vertex-angle cosine into `2A - 1 = cos a` and
+the angle formula's `sin²(a/2) = (1 - g)/(1 + gS)` into `1 - A`; conversely the angle
+formula's `A = 1 - (1-g)/(1+gS)` gives back `S` -/
+theorem polygon_radius_angle_core (A g S : K) (hA : A ≠ 1) (hg0 : g ≠ 0) (hg1 : g ≠ 1) :
+    polyAngleCos g (polyRadiusSinhSq A g) = 2 * A - 1 ∧
+    polyAngleSinSq g (polyRadiusSinhSq A g) = 1 - A ∧
+    (1 + g * S ≠ 0 → polyAngleCos g S = 1 - 2 * polyAngleSinSq g S) ∧
+    (1 + g * S ≠ 0 → polyRadiusSinhSq (1 - polyAngleSinSq g S) g = S) := by
+  have h1 : (1 - A) ≠ 0 := sub_ne_zero.2 (Ne.symm hA)
+  have h2 : (1 - g) ≠ 0 := sub_ne_zero.2 (Ne.symm hg1)
+  have hden : 1 + g * polyRadiusSinhSq A g = (1 - g) / (1 - A) := by
+    unfold polyRadiusSinhSq; field_simp; ring
+  refine ⟨?_, ?_, ?_, ?_⟩
+  · unfold polyAngleCos; rw [hden]; unfold polyRadiusSinhSq; field_simp; ring
+  · unfold polyAngleSinSq; rw [hden]; field_simp
+  · intro h
+    unfold polyAngleCos polyAngleSinSq
+    field_simp; ring
+  · intro h
+    have e1 : 1 - polyAngleSinSq g S - g = g * S * (1 - g) / (1 + g * S) := by
+      unfold polyAngleSinSq; field_simp; ring
+    have e2 : (1 - (1 - polyAngleSinSq g S)) * g = (1 - g) * g / (1 + g * S) := by
+      unfold polyAngleSinSq; field_simp; ring
+    unfold polyRadiusSinhSq
+    rw [e1, e2]
+    field_simp
+
+end generic
+
+/-! ## instantiation at ℝ -/
+
+section real
+variable {n : ℕ}
+open Real
+
+/-- `hyp_to_affine_dist(t) = (e^{2t} - 1)/(1 + e^{2t}) = tanh t` -/
+theorem hyp_to_affine_dist_eq_tanh (t : ℝ) : hypToAffine (Real.exp (2 * t)) = Real.tanh t := by
+  have h := hypToAffine_eq (Real.exp t) (Real.exp_pos t)
+  have e2 : Real.exp t ^ 2 = Real.exp (2 * t) := by rw [← Real.exp_nat_mul]; norm_num
+  rw [e2] at h
+  rw [h, Real.tanh_eq_sinh_div_cosh, Real.sinh_eq, Real.cosh_eq, Real.exp_neg]
+  congr 1 <;> ring
+
+/-- **the point at distance `t` along a unit tangent vector lies at hyperbolic distance `|t|`**
+from the base point, for either sign of `t` -/
+theorem pointAlong_hdist (ph vh : Fin (n + 1) → ℝ) (hp : mink ph ph = -1) (hv : mink vh vh = 1)
+    (hpv : mink ph vh = 0) (t : ℝ) :
+    C01.hdist ph (pointAlong ph vh (hypToAffine (Real.exp (2 * t)))) = |t| := by
+  rw [hyp_to_affine_dist_eq_tanh, Real.tanh_eq_sinh_div_cosh]
+  have hc := Real.cosh_pos t
+  have hcs : Real.cosh t ^ 2 - Real.sinh t ^ 2 = 1 := by rw [Real.cosh_sq t]; ring
+  have hd := pointAlong_dist C01.isSqrt_real ph vh (Real.cosh t) (Real.sinh t) hp hv hpv hc hcs
+  unfold C01.hdist coshDistClamped
+  rw [hd, max_eq_right (Real.one_le_cosh t), ← Real.cosh_abs, Real.arcosh_cosh (abs_nonneg t)]
+
+/-- **following the unit tangent towards `q` for distance `d(p,q)` arrives at `q`** (over ℝ, with
+the library's own distance and `hyp_to_affine_dist`): the computed vector is a non-zero
+multiple of the stored representative of `q` -/
+theorem towards_reaches (p q : Fin (n + 1) → ℝ) (hp : mink p p < 0) (hq : mink q q < 0)
+    (hne : 1 < coshDist Real.sqrt p q) :
+    let u := unitTangentTowards Real.sqrt p q
+    ∃ c : ℝ, c ≠ 0 ∧
+      pointAlong (tvOriginToRow0 Real.sqrt p u) (tvOriginToRow1 Real.sqrt p u)
+        (hypToAffine (Real.exp (2 * C01.hdist p q))) = fun i => c * q i := by
+  intro u
+  have hch : Real.cosh (C01.hdist p q) = coshDist Real.sqrt p q := C01.cosh_hdist p q hp hq
+  have hpos : 0 < C01.hdist p q := by
+    unfold C01.hdist; rw [C01.clamp_noop p q hp hq]; exact Real.arcosh_pos hne
+  have hsh : 0 < Real.sinh (C01.hdist p q) := Real.sinh_pos_iff.2 hpos
+  have := pointAlong_towards C01.isSqrt_real p q hp hq (Real.sinh (C01.hdist p q)) hsh
+    (by rw [← hch, Real.cosh_sq]; ring)
+  rw [hyp_to_affine_dist_eq_tanh, Real.tanh_eq_sinh_div_cosh, hch]; exact this
+
+/-- `regular_polygon_radius(n, a)` over ℝ -/
+noncomputable def polyRadius (k : ℕ) (a : ℝ) : ℝ :=
+  Real.arsinh (Real.sqrt ((Real.cos (a / 2) ^ 2 - Real.sin (π / k) ^ 2)
+    / ((Real.sin (a / 2) * Real.sin (π / k)) ^ 2)))
+
+/-- `polygon_interior_angle(n, r)` over ℝ -/
+noncomputable def polyAngle (k : ℕ) (ρ : ℝ) : ℝ :=
+  2 * Real.arcsin (Real.cos (π / k) / Real.sqrt (1 + (Real.sin (π / k) * Real.sinh ρ) ^ 2))
+
+/-- **the radius and angle formulas are mutual inverses** (angle side): for `n ≥ 3` and an
+admissible interior angle `a ∈ (0, (n-2)π/n)`, `polygon_interior_angle(n,
+regular_polygon_radius(n, a)) = a` -/
+theorem radius_angle_inverse (k : ℕ) (hk : 3 ≤ k) (a : ℝ) (ha0 : 0 < a)
+    (ha1 : a < (k - 2) * π / k) : polyAngle k (polyRadius k a) = a := by
+  have hk0 : (0 : ℝ) < k := by exact_mod_cast (by omega : 0 < k)
+  have hk3 : (3 : ℝ) ≤ k := by exact_mod_cast hk
+  have hγ0 : 0 < π / k := div_pos Real.pi_pos hk0
+  have hγ1 : π / k ≤ π / 3 := by
+    apply div_le_div_of_nonneg_left Real.pi_pos.le (by norm_num) hk3
+  have hαγ : a / 2 + π / k < π / 2 := by
+    have : (k - 2) * π / k = π - 2 * (π / k) := by field_simp
+    rw [this] at ha1; linarith
+  have hα0 : 0 < a / 2 := by linarith
+  have hα1 : a / 2 < π / 2 := by linarith
+  have hsα : 0 < Real.sin (a / 2) := Real.sin_pos_of_pos_of_lt_pi hα0 (by linarith [Real.pi_pos])
+  have hsγ : 0 < Real.sin (π / k) := Real.sin_pos_of_pos_of_lt_pi hγ0 (by linarith [Real.pi_pos])
+  have hcγ : 0 < Real.cos (π / k) :=
+    Real.cos_pos_of_mem_Ioo ⟨by linarith [Real.pi_pos], by linarith [Real.pi_pos]⟩
+  -- cos(a/2) > sin(π/k) = cos(π/2 - π/k)
+  have hcs : Real.sin (π / k) < Real.cos (a / 2) := by
+    rw [← Real.cos_pi_div_two_sub]
+    apply Real.cos_lt_cos_of_nonneg_of_le_pi_div_two hα0.le (by linarith) (by linarith)
+  have hterm : 0 ≤ (Real.cos (a / 2) ^ 2 - Real.sin (π / k) ^ 2)
+      / ((Real.sin (a / 2) * Real.sin (π / k)) ^ 2) := by
+    apply div_nonneg _ (by positivity)
+    nlinarith
+  unfold polyAngle polyRadius
+  rw [Real.sinh_arsinh, mul_pow (Real.sin (π / k)), Real.sq_sqrt hterm]
+  have hkey : 1 + Real.sin (π / k) ^ 2 * ((Real.cos (a / 2) ^ 2 - Real.sin (π / k) ^ 2)
+      / ((Real.sin (a / 2) * Real.sin (π / k)) ^ 2))
+      = (Real.cos (π / k) / Real.sin (a / 2)) ^ 2 := by
+    have h1 := Real.sin_sq_add_cos_sq (a / 2)
+    have h2 := Real.sin_sq_add_cos_sq (π / k)
+    field_simp
+    nlinarith
+  rw [hkey, Real.sqrt_sq (by positivity)]
+  have : Real.cos (π / k) / (Real.cos (π / k) / Real.sin (a / 2)) = Real.sin (a / 2) := by
+    field_simp
+  rw [this, Real.arcsin_sin (by linarith) hα1.le]; ring
+
+end real
+
+/-! ## non-vacuity -/
+
+/-- a unit timelike base point with a unit tangent vector orthogonal to it, in `R^{2,1}` -/
+example : mink (![5/3, 4/3, 0] : Fin 3 → ℚ) ![5/3, 4/3, 0] = -1 ∧
+    mink (![4/3, 5/3, 0] : Fin 3 → ℚ) ![4/3, 5/3, 0] = 1 ∧
+    mink (![5/3, 4/3, 0] : Fin 3 → ℚ) ![4/3, 5/3, 0] = 0 := by
+  refine ⟨?_, ?_, ?_⟩ <;> simp [mink, dot, Fin.sum_univ_succ, Fin.tail] <;> norm_num
+
+/-- rational `(cosh, sinh)` and `(cos, sin)` data -/
+example : (5 / 4 : ℚ) ^ 2 - (3 / 4) ^ 2 = 1 ∧ (3 / 5 : ℚ) ^ 2 + (4 / 5) ^ 2 = 1 := by norm_num
+
+/-- admissible polygon data: a square (`g = sin²(π/4) = 1/2`) with `S = sinh² r = 2` -/
+example : (0 : ℚ) < 2 ∧ (1 / 2 : ℚ) < 1 ∧ ((2 / 3 : ℚ) = 2 / (1 + 2)) := by norm_num
+
+end GT.C13
